@@ -8,11 +8,12 @@ import json
 class Facts:
     def __init__(self, doc):
         from .normalize import (canonicalize_generics, transparent_helpers, canonical_apis, expand_combinators, eliminate_try,
-                                thread_known_discriminants, expand_int_try_from)
+                                thread_known_discriminants, expand_int_try_from, expand_for_each)
         doc = canonicalize_generics(doc)
         doc = transparent_helpers(doc)
         doc = canonical_apis(doc)
         doc = expand_int_try_from(doc)
+        doc = expand_for_each(doc)
         doc = expand_combinators(doc)
         doc = eliminate_try(doc)
         doc = thread_known_discriminants(doc)
